@@ -430,8 +430,8 @@ def descrlink(repo, res, ty, rule="DESCRLINK"):
                 def probe(f, n):
                     if n["k"] == "MethodCall" and n["method"] in ("get_index_of", "enumerate", "position"):
                         r = n["recv"]
-                        while r["k"] in ("Ref", "Unary"):
-                            r = r["expr"]
+                        while r["k"] in ("Ref", "Unary", "Paren") or (r["k"] == "MethodCall" and r["method"] in ("iter", "into_iter") and not r["args"]):
+                            r = r["expr"] if r["k"] != "MethodCall" else r["recv"]
                         seen.append((n["method"], r.get("path") if r["k"] == "Path" else "<expr>"))
 
                 T.Taint(repo, ty, set(), scalars_clean=False, probe=probe).raw(fn, e, env)
@@ -440,8 +440,15 @@ def descrlink(repo, res, ty, rule="DESCRLINK"):
                     if m == "get_index_of":
                         by_set.setdefault(recv, []).append(what)
                     else:
-                        counters.append((what, m))
+                        counters.append((what, m, recv))
         sets = sorted(by_set)
+        # enumerating the de-duplicating set itself yields exactly its indices: the same id as <set>.get_index_of(element)
+        if len(sets) == 1:
+            own = [(w, m) for w, m, recv in counters if m == "enumerate" and recv == sets[0]]
+            for w, m in own:
+                by_set[sets[0]].append(w)
+            counters = [c for c in counters if not (c[1] == "enumerate" and c[2] == sets[0])]
+        counters = [(w, m) for w, m, _ in counters]
         ok = len(sets) == 1 and len(by_set[sets[0]]) >= floor and not counters
         why = f"ids derived from {sets[0]}.get_index_of: {by_set[sets[0]]}" if len(sets) == 1 else f"description ids come from {len(sets)} different lookups: {by_set}"
         if counters:
